@@ -200,6 +200,23 @@ def run(ctx):
             ctx.violation(dict(kind='unrepresentable-value-written', type=impl.type_syntax(t), value=repr(bad), written=st.getvalue().hex(),
                                how='DataType.write_to_stream(BytesIO(), value, 1) must raise for a float too large for the type (it was written as something else)'))
             break
+        # text that has NO UTF-8 encoding (a str with an unpaired surrogate - json.loads('"\\ud83d"') produces one): refused, or - if a writer ever accepts
+        # it - read back as the same str from exactly the bytes written; alone, in an array, in a dict, as a method argument
+        for t, bad in ((('string',), 'Player_\ud83d'), (('string',), '\udc00'), (('array', ('string',), None), ['ok', 'x\ud800y']),
+                       (('dict', (('k', ('u', 1)), ('v', ('string',))), False), {'k': 1, 'v': '\udfff!'})):
+            try: lt = lib.make(t)
+            except Exception: continue
+            st = io.BytesIO(); ctx.case(None); ctx.count('text-without-utf8-encoding')
+            try: lt.write_to_stream(st, bad, 1)
+            except Exception: continue
+            rd = io.BytesIO(st.getvalue())
+            try: back = lt.create_from_stream(rd, 1)
+            except Exception as e: back = 'read fails: ' + type(e).__name__
+            norm = lambda x: [norm(y) for y in x] if isinstance(x, (list, tuple)) else {k_: norm(y) for k_, y in x.items()} if hasattr(x, 'items') else x
+            if norm(back) != norm(bad) or rd.tell() != len(st.getvalue()):
+                ctx.violation(dict(kind='unrepresentable-value-written', type=impl.type_syntax(t), value=ascii(bad), written=st.getvalue().hex(), read_back=ascii(back)[:200],
+                                   how='DataType.write_to_stream(BytesIO(), value, 1) for text with an unpaired surrogate: it has no UTF-8 encoding, so it must be refused (or read back as the same str)'))
+                break
         # MAILBOX: (dotted IPv4 text, 16-bit port) is what the four + two bytes carry; anything else - an IPv6 literal, an integer, packed bytes,
         # free text, a port outside 0..65535 - is refused, or, if the writer accepts it, must read back as the same value from exactly those bytes
         for bad in (('::1', 6000), ('fe80::1', 1), (2130706433, 80), (b'\x7f\x00\x00\x01', 80), ('not an address', 1), ('1.2.3.4', 70000), ('1.2.3.4', -1),
